@@ -234,7 +234,9 @@ class C11(Prop):
     CORRESPONDENCE = 'PlaybackModel.Heap (runClient over fetch/getData/getMeta/setData/new/mutate/recordIn/recordOut/recordRaw/save) vs MemoryRecording + cassettes + TapeRecorder.play'
     RULE = ('scripted lives of one recording on every cassette: record (copy-on-interception on/off) with in-place mutation '
             'after capture, then fetches / reads / live metadata / __setitem__ / mutations of handed-out values / replays whose '
-            'replayed code mutates injected values; a case is non-trivial when at least one in-place mutation applied to a '
+            'replayed code mutates injected values; + stored values whose copy-on-read fails (an object whose serialised state omits a '
+            'derived attribute), read / re-read / replayed on the in-memory and the file cassette (not modelled: whatever a read hands '
+            'out must not expose the stored value); a case is non-trivial when at least one in-place mutation applied to a '
             'handed-out or captured object and a later read observed the key; distinct = distinct canonical case')
     TRUSTED = ['correspondence harness harness/props/c11.py + Lean driver (Drive/Heap.lean): script compilation, path '
                'navigation and the edit-applicability rule are implemented twice (Python on real objects, Lean on cells)',
